@@ -93,7 +93,7 @@ fn long_stream(input: &[u8], cfg: &Cfg) -> (usize, bool, usize, usize) {
 pub fn run(ctx: &mut Ctx) {
     alloc::REFUSE_ABOVE.store(256 << 20, std::sync::atomic::Ordering::Relaxed);
     let quick = ctx.quick();
-    ctx.meta("rule", "cases: header-only streams: an element of every type (U, I, F, S, B, master, global Void, unknown id) at root, inside a small known-size master, inside a known-size master with room, inside an unknown-size master, declaring S in {0,1,M-1,M,M+1,2M,2^20,2^30,2^40,2^56-2} in every VINT width that can hold it, payload absent / 3 bytes present / followed by a 200 KB tail, x limit M in {5,16,1000,2^20,default} x capacity {16,4096,default} x 8 tolerance subsets; a counting global allocator measures peak heap growth around the whole iteration. Oracle: S > M => a CorruptedFileData error (the size error unless an earlier-ordered check fires) with nothing emitted for the element, peak growth <= growth of the same stream with S:=0 plus 4 KiB (independent of S), bytes pulled from the source <= buffer capacity + header; S <= M with the payload missing => growth <= 8*max(S,capacity)+64 KiB; never a panic. A single allocation request above 256 MiB aborts the worker and is reported. Non-trivial: S > capacity.");
+    ctx.meta("rule", "cases: header-only streams: an element of every type (U, I, F, S, B, master, global Void, unknown id) at root, inside a small known-size master, inside a known-size master with room, inside an unknown-size master, declaring S in {0,1,M-1,M,M+1,2M,2^20,2^30,2^40,2^56-2} in every VINT width that can hold it, payload absent / 3 bytes present / followed by a 200 KB tail, x limit M in {5,16,1000,2^20,default} x capacity {16,4096,default} x 8 tolerance subsets; a counting global allocator measures peak heap growth around the whole iteration. Oracle: S > M => a CorruptedFileData error (the size error unless an earlier-ordered check fires) with nothing emitted for the element, peak growth <= growth of the same stream with S:=0 plus 4 KiB (independent of S), bytes pulled from the source <= buffer capacity + header; S <= M with the payload missing => growth <= 8*max(S,capacity)+64 KiB; never a panic. Long streams of 10-30 thousand elements of varying small sizes: the largest slice ever offered to read() <= 4*max(capacity, largest payload). A single allocation request above 256 MiB aborts the worker and is reported. Non-trivial: S > capacity.");
     ctx.meta("bounds", "sizes, widths, limits, capacities and contexts as listed; within-limit sizes above 2^20 are not executed (they would really allocate)");
     ctx.meta("assumptions", "no buffered masters (the statement excludes them) || allocator accounting counts requested bytes, not allocator overhead");
     for c in ["over_limit_cases", "within_limit_payload_missing", "over_limit_with_tail", "long_streams"] {
